@@ -31,6 +31,18 @@ def check(f1, l1, f2, l2, r1, r2, d1, d2):
     # a feature with both locations equals the same feature with the locations in the other order
     if Feature("k", [a, b]) != Feature("k", [b, a]) or hash(Feature("k", [a, b])) != hash(Feature("k", [b, a])):
         return "location order matters for feature equality / hash"
+    # the qualifiers handed out by a feature are not its own dictionary: editing them changes neither the feature nor
+    # the annotations (and their copies) that hold it
+    ann = Annotation([fa])
+    cp = ann.copy()
+    h0 = hash(fa)
+    q = fa.qual
+    q["q"] = "edited"
+    q["new"] = "x"
+    for f_ in list(cp) + list(ann):
+        f_.qual["q"] = "edited through a copy"
+    if fa.qual != {"q": "1"} or hash(fa) != h0 or fa not in ann or list(cp)[0].qual != {"q": "1"} or cp != ann:
+        return f"editing the dictionary returned by Feature.qual changed the feature: {fa.qual}"
     # different key or qualifiers -> different features
     if Feature("k", [a], {"q": "1"}) == Feature("j", [a], {"q": "1"}) or Feature("k", [a], {"q": "1"}) == Feature("k", [a], {"q": "2"}):
         return "features with different key / qualifiers compare equal"
@@ -66,7 +78,7 @@ IUPAC = "ACGTRYWSMKHBVDN"
 IUPAC_COMP = dict(zip("ACGTRYWSMKHBVDN", "TGCAYRWSKMDVBHN"))       # complement pairing of the nomenclature
 
 
-def check_iupac(rot, ss, f1, l1, f2, l2, rev, two, mixed):
+def check_iupac(rot, ss, f1, l1, f2, l2, rev, two, mixed, nested=0):
     """aseq[feature] / aseq[feature] = ... / reverse_complement on a sequence holding every IUPAC letter: reverse-strand
     locations are reverse-complemented with the IUPAC pairing (per base)"""
     from biotite.sequence import Location, Feature, Annotation, AnnotatedSequence, NucleotideSequence
@@ -111,6 +123,8 @@ def check_iupac(rot, ss, f1, l1, f2, l2, rev, two, mixed):
     back = r.reverse_complement(sequence_start=ss)
     if str(back.sequence) != text or back.annotation != aseq.annotation or back.sequence_start != ss:
         return "reverse complement twice does not restore the original"
+    if nested:
+        return None          # (overlapping locations: assignment through the feature would write some bases twice)
     # assignment through the feature, read back and per base
     new = (IUPAC * 2)[3: 3 + len(want)]
     aseq[feat] = NucleotideSequence(new, ambiguous=True)
@@ -133,9 +147,11 @@ def check_iupac(rot, ss, f1, l1, f2, l2, rev, two, mixed):
 
 def ob_iupac(tier):
     rot, ss, f1, l1, f2, l2, rev, two, mixed = z3.Ints("rot ss f1 l1 f2 l2 rev two mixed")
+    nest = z3.Int("nest")
     n = len(IUPAC)
     starts = [1, 7, 2 ** 30]
-    base = [rot >= 0, rot < 5, ss >= 0, ss < 3, f1 >= 0, f1 <= l1, l1 < f2, f2 <= l2, l2 < n, l1 - f1 <= 4, l2 - f2 <= 4, f2 - l1 <= 3,
+    base = [rot >= 0, rot < 5, ss >= 0, ss < 3, f1 >= 0, f1 <= l1, f2 <= l2, l2 < n, l1 - f1 <= 4, l2 - f2 <= 4, nest >= 0, nest <= 1,
+            z3.Implies(nest == 0, z3.And(l1 < f2, f2 - l1 <= 3)), z3.Implies(nest == 1, z3.And(two == 1, mixed == 0, f1 < f2, l2 < l1)),
             rev >= 0, rev <= 1, two >= 0, two <= 1, mixed >= 0, mixed <= 1, z3.Implies(two == 0, z3.And(mixed == 0, f2 == l1 + 1, l2 == f2))]
 
     def run():
@@ -144,19 +160,27 @@ def ob_iupac(tier):
         a = c(f1, range(n))
         b = c(l1, range(a, min(n, a + 5)))
         t = c(two, (0, 1))
+        ns = 0
         if t:
-            d = c(f2, range(b + 1, min(n, b + 4)))
-            e = c(l2, range(d, min(n, d + 5)))
-            m = c(mixed, (0, 1))
+            ns = c(nest, (0, 1)) if b - a >= 2 else 0
+            if ns:
+                # second location strictly inside the first one
+                d = c(f2, range(a + 1, b))
+                e = c(l2, range(d, b))
+                m = 0
+            else:
+                d = c(f2, range(b + 1, min(n, b + 4)))
+                e = c(l2, range(d, min(n, d + 5)))
+                m = c(mixed, (0, 1))
         else:
             if b + 1 >= n:
                 return True
             d, e, m = b + 1, b + 1, 0
-        return check_iupac(3 * c(rot, range(5)), starts[c(ss, range(3))], a, b, d, e, c(rev, (0, 1)), t, m) is None
+        return check_iupac(3 * c(rot, range(5)), starts[c(ss, range(3))], a, b, d, e, c(rev, (0, 1)), t, m, ns) is None
 
     def rep(w):
         try:
-            r = check_iupac(3 * w["rot"], starts[w["ss"]], w["f1"], w["l1"], w["f2"], w["l2"], w["rev"], w["two"], w["mixed"])
+            r = check_iupac(3 * w["rot"], starts[w["ss"]], w["f1"], w["l1"], w["f2"], w["l2"], w["rev"], w["two"], w["mixed"], w.get("nest", 0))
             return r is None, str(r)
         except Exception as e:
             import traceback
@@ -164,5 +188,5 @@ def ob_iupac(tier):
     cases = []
     for r_ in range(5):
         cases.append(Case(f"feature indexing over the IUPAC alphabet [rotation {3 * r_}]", base + [rot == r_], run,
-                          dict(rot=rot, ss=ss, f1=f1, l1=l1, f2=f2, l2=l2, rev=rev, two=two, mixed=mixed), rep))
+                          dict(rot=rot, ss=ss, f1=f1, l1=l1, f2=f2, l2=l2, rev=rev, two=two, mixed=mixed, nest=nest), rep))
     return cases
